@@ -50,8 +50,10 @@ type DefSpec struct {
 }
 
 type Op struct {
-	Head int  `json:"head,omitempty"`
-	Dec  *int `json:"dec,omitempty"` // set the decrypted flag of the n-th registration of the scenario (in block order)
+	Head int               `json:"head,omitempty"`
+	Dec  *int              `json:"dec,omitempty"` // set the decrypted flag of the n-th registration of the scenario (in block order)
+	RPC  *syncrig.RPCFault `json:"rpc,omitempty"`
+	DB   *syncrig.DBFault  `json:"db,omitempty"`
 }
 
 type Run struct {
@@ -120,6 +122,21 @@ func cPev(block int64, bhash []byte, tx, log int64, item string) string {
 func cKey(eon int64, prefix []byte, sender string, def []byte) string {
 	return vh.CApp("KTrigger", vh.CZ(eon), cB(prefix), cB(common.HexToAddress(sender).Bytes()), cB(def))
 }
+func cFaults(fs []string) string {
+	xs := make([]string, len(fs))
+	for i, f := range fs {
+		switch f {
+		case "fail":
+			xs[i] = "Fail"
+		case "fail-applied":
+			xs[i] = "FailApplied"
+		default:
+			xs[i] = "NoFault"
+		}
+	}
+	return vh.CList(xs)
+}
+
 func cStatus(s syncrig.Status) string {
 	if !s.Present {
 		return "None"
@@ -323,7 +340,10 @@ func (w *world) runScenario(sc *Scenario) {
 					}
 				}
 			}
-			out := rig.RunSync(syncer, hb.Header, nil, nil)
+			out := rig.RunSync(syncer, hb.Header, op.RPC, op.DB)
+			if op.RPC != nil || len(out.DBFaults) > 0 {
+				run.Dist["sync-with-fault"]++
+			}
 			post := rig.ReadStatus("multi")
 			postRows := rig.ReadRows("multi")
 			postFired := readFired(rig)
@@ -449,6 +469,7 @@ func (w *world) runScenario(sc *Scenario) {
 			term := vh.CApp("CTSync", vh.CN(id), cU64(sc.Start), vh.CZ(D), cU64(rn.Range),
 				cStatus(pre), cRegRows(preRows), cDecrypted(preRows), cFired(preFired),
 				cU64(hb.Number), cB(parent.Bytes()), vh.CList(hs), vh.CList(items), vh.CList(mts),
+				cFaults(out.RPCFaults), cFaults(out.DBFaults),
 				vh.CBool(out.Err == nil), cStatus(post), cRegRows(postRows), cDecrypted(postRows), cFired(postFired))
 			js := map[string]any{"scenario_no": w.scenarioNo, "run": ri, "op": oi, "seed": run.Seed}
 			if oi == len(rn.Ops)-1 {
@@ -772,6 +793,23 @@ func genScenario(r *vh.RNG, forks bool) *Scenario {
 		sub = story // skipping heads can break the "first head of a fork is at most one past the synced block" assumption
 	}
 	sc.Runs = append(sc.Runs, Run{Range: vh.Pick[uint64](r, 2, 3, 5), Ops: heads(sub)})
+	// the story under failures: a faulty Sync is followed by a retry on the same head
+	{
+		var ops []Op
+		for i, h := range story {
+			if i < len(story)-1 && r.Chance(1, 3) {
+				op := Op{Head: h}
+				if r.Chance(1, 2) {
+					op.RPC = &syncrig.RPCFault{Call: r.Intn(7), Kind: vh.Pick(r, "rpc-error", "http-500", "drop")}
+				} else {
+					op.DB = &syncrig.DBFault{Op: r.Intn(8), Mode: vh.Pick(r, "stmt", "drop", "drop-commit", "drop-after-commit"), Sub: r.Intn(8)}
+				}
+				ops = append(ops, op)
+			}
+			ops = append(ops, Op{Head: h})
+		}
+		sc.Runs = append(sc.Runs, Run{Range: vh.Pick[uint64](r, 1, 2, 3, 10_000), Ops: ops})
+	}
 	// block by block with updates of the decrypted flag
 	if r.Chance(1, 2) {
 		nreg := 0
@@ -842,6 +880,57 @@ func forcedScenarios() []*Scenario {
 	return out
 }
 
+// sweepScenarios: one fault at every RPC call index / database operation index of the Sync that
+// stores a registration and fires two triggers in two ranges, and of the Sync that rolls back.
+func sweepScenarios(full bool) []*Scenario {
+	var out []*Scenario
+	lg := func(a, t uint8, v uint64) syncrig.Item { return syncrig.Item{Lg: &syncrig.Lg{A: a, T: t, V: v}} }
+	reg := func(p uint8, def int, exp uint64) syncrig.Item {
+		return syncrig.Item{Ev: &syncrig.Ev{Eon: 1, P: p, S: 1, Def: def, Exp: exp}}
+	}
+	defs := []DefSpec{{A: 1, T: -1, Gte: -1}, {A: 2, T: 1, Gte: 5}}
+	base := func() *Scenario {
+		sc := &Scenario{Start: 0, Depth: 2, Defs: defs, Note: "fault sweep"}
+		sc.Blocks = []syncrig.BlockSpec{
+			{Parent: 0, Items: []syncrig.Item{reg(1, 0, 100), reg(2, 1, 100)}}, // 1
+			{Parent: 1, Count: 1}, // 2
+			{Parent: 2, Items: []syncrig.Item{lg(1, 0, 0), reg(3, 0, 100)}},    // 3
+			{Parent: 3, Items: []syncrig.Item{lg(2, 1, 7)}},                    // 4
+			{Parent: 4, Items: []syncrig.Item{lg(1, 0, 0)}},                    // 5
+			{Parent: 4, Salt: 1, Count: 2},                                     // 6 (5'), 7 (6')
+		}
+		return sc
+	}
+	add := func(second bool, rpc *syncrig.RPCFault, db *syncrig.DBFault) {
+		sc := base()
+		if second { // the fault hits the Sync that detects the reorganisation
+			sc.Runs = []Run{{Range: 2, Ops: []Op{{Head: 1}, {Head: 5}, {Head: 7, RPC: rpc, DB: db}, {Head: 7}}}}
+		} else { // the fault hits the Sync over two ranges with two active triggers
+			sc.Runs = []Run{{Range: 2, Ops: []Op{{Head: 1}, {Head: 5, RPC: rpc, DB: db}, {Head: 5}, {Head: 7}}}}
+		}
+		out = append(out, sc)
+	}
+	for _, second := range []bool{false, true} {
+		for call := 0; call < 8; call++ {
+			add(second, &syncrig.RPCFault{Call: call, Kind: []string{"rpc-error", "http-500", "drop"}[call%3]}, nil)
+		}
+		for op := 0; op < 7; op++ {
+			add(second, nil, &syncrig.DBFault{Op: op, Mode: "stmt", Sub: 0})
+			add(second, nil, &syncrig.DBFault{Op: op, Mode: "drop-commit"})
+			add(second, nil, &syncrig.DBFault{Op: op, Mode: "drop-after-commit"})
+			if full {
+				for sub := 1; sub < 4; sub++ {
+					add(second, nil, &syncrig.DBFault{Op: op, Mode: "stmt", Sub: sub})
+				}
+				for sub := 0; sub < 14; sub++ {
+					add(second, nil, &syncrig.DBFault{Op: op, Mode: "drop", Sub: sub})
+				}
+			}
+		}
+	}
+	return out
+}
+
 func loadReplay(path string) (*Scenario, error) {
 	b, err := os.ReadFile(path)
 	if err != nil {
@@ -908,7 +997,10 @@ func main() {
 	for _, sc := range forcedScenarios() {
 		exec(sc)
 	}
-	n := run.Scale(50, 800)
+	for _, sc := range sweepScenarios(run.Thorough) {
+		exec(sc)
+	}
+	n := run.Scale(45, 800)
 	for i := 0; i < n; i++ {
 		exec(genScenario(run.RNG.Fork(), i%3 == 0))
 	}
